@@ -155,8 +155,10 @@ func (q *DateRangeQuery) Searcher(ctx context.Context, i index.IndexReader, m ma
 }
 
 func (q *DateRangeQuery) parseEndpoints() (*float64, *float64, error) {
-	min := math.Inf(-1)
-	max := math.Inf(1)
+	// an open end is the end of the int64 nanosecond range, carried like every other bound as the float64
+	// with that bit pattern: ±Inf is not an end of it (the bit pattern of +Inf is a date in February 2262)
+	min := numeric.Int64ToFloat64(math.MinInt64)
+	max := numeric.Int64ToFloat64(math.MaxInt64)
 	if !q.Start.IsZero() {
 		if !isDatetimeCompatible(q.Start) {
 			// overflow
